@@ -1285,13 +1285,24 @@ def set_add(it, s, x):
 
 
 def set_method(it, s, name, args, kwargs, line=None):
+    ctx = it.ctx
     if name == 'add':
         set_add(it, s, args[0])
         return None
     if name == 'update':
         items = concrete_items(it, args[0])
         if items is None:
-            raise Unsupported('set.update with a symbolic collection')
+            # union with the elements of a sequence of symbolic length
+            other = args[0]
+            it.mutating(s)
+            s.make_symbolic()
+            if isinstance(other, VSet):
+                s.arr = z3.SetUnion(s.arr, other.to_arr())
+            else:
+                seq = other.seq if isinstance(other, (VList, VSeqIter)) and getattr(other, 'seq', None) is not None \
+                    else it.seq_term(other, line)
+                s.arr = z3.SetUnion(s.arr, members_of(ctx, seq))
+            return None
         for x in items:
             set_add(it, s, x)
         return None
@@ -1618,12 +1629,12 @@ def b_set(it, args, kwargs):
         else:
             seq = it.seq_term(v)
             s.make_symbolic()
-            s.arr = seq_to_set(seq)
+            s.arr = members_of(it.ctx, seq)       # set(l): exactly the elements of l
             s.from_seq = seq
     return s
 
 
-seq_to_set = z3.Function('seq_to_set', PVSeq, pv.PVSetS)
+seq_to_set = seq_elems_pv
 
 
 def b_dict(it, args, kwargs):
@@ -2220,6 +2231,14 @@ def members_of(ctx, seq):
     hit = memo.get(seq.get_id())
     if hit is not None:
         return hit[0]
+    if '__axiom__' not in memo:
+        # the defining property, for sequences that only occur under quantifiers (no ground term to attach a fact to)
+        memo['__axiom__'] = True
+        qs = z3.Const('q.es.7', pv.PVSeq)
+        qj = z3.Const('q.ej.7', z3.IntSort())
+        ctx.assume(z3.ForAll([qs, qj], z3.Implies(z3.And(qj >= 0, qj < z3.Length(qs)),
+                                                  seq_elems_pv(qs)[pv.kenc_t(qs[qj])]),
+                             patterns=[z3.MultiPattern(seq_elems_pv(qs), qs[qj])]))
     kd = seq.decl().kind() if z3.is_app(seq) else None
     untyped = seq.sort() == pv.PVSeq
     key = (lambda t: pv.kenc_t(t)) if untyped else (lambda t: t)
@@ -2254,11 +2273,21 @@ def sp_members(it, args, kwargs):
     v = args[0]
     if isinstance(v, (VList, VSeqIter)) and getattr(v, 'seq', None) is not None:
         return VSet(arr=members_of(it.ctx, v.seq))
+    if isinstance(v, SAny):
+        return VSet(arr=members_of(it.ctx, PV.sitems(v.t)))
     if isinstance(v, VList) and not v.symbolic:
         terms = [pv.elem_term(VSeqIter(None, elem='str'), x) for x in v.items]
         if all(t is not None for t in terms):
             return VSet(arr=members_of(it.ctx, pv.seq_of(terms) if terms else z3.Empty(z3.SeqSort(z3.StringSort()))))
     raise Unsupported('members() of %r' % (v,))
+
+
+def sp_str_of(it, args, kwargs):
+    """str_of(x): the value read as a string (for ordering comparisons of elements of untyped lists)"""
+    v = args[0]
+    if isinstance(v, (str, SStr)):
+        return v
+    return SStr(PV.s(lift(v)))
 
 
 def sp_same(it, args, kwargs):
@@ -2318,5 +2347,5 @@ SPEC_FUNCS = {
     'is_num': sp_is_num, 'is_exc': sp_is_exc, 'truthy': sp_truthy, 'is_none': sp_is_none, 'is_str': sp_is_str, 'is_int': sp_is_int,
     'absent': sp_absent, 'matches': sp_matches, 'py_int': sp_py_int, 'py_int_base': sp_py_int_base,
     'py_replace': sp_replace, 'seq': sp_seq, 'concat': sp_concat, 'same': sp_same, 'fld': sp_fld,
-    'members': sp_members,
+    'members': sp_members, 'str_of': sp_str_of,
 }
